@@ -255,6 +255,15 @@ theorem C19_tmp_names_injective_per_process (sep suffix a b : List Nat) (pid : N
   have h1 : a ++ (sep ++ (decDigits pid ++ suffix)) = b ++ (sep ++ (decDigits pid ++ suffix)) := h
   exact List.append_cancel_right h1
 
+/-- TWO PROCESSES NEVER SHARE A TEMPORARY: for the same result file, different process ids give different temporary
+names (whatever the constant parts are) — two runs that use one cache directory at the same time write their own
+temporaries even for the same key -/
+theorem C19_tmp_names_differ_across_processes (sep suffix f : List Nat) (p1 p2 : Nat)
+    (h : tmpName sep suffix f p1 = tmpName sep suffix f p2) : p1 = p2 := by
+  simp only [tmpName, List.append_assoc] at h
+  have h1 := List.append_cancel_left (List.append_cancel_left h)
+  exact decDigits_injective (List.append_cancel_right h1)
+
 /-- TEMPORARY NAMES ARE PATH-SAFE under the shipped naming: no path separator, no NUL byte -/
 theorem C19_tmp_names_path_safe (str repr : κ → List Nat) (hbytes : ∀ k, ∀ b ∈ repr k, b < 256) (k : κ) (pid : Nat) :
     pathSafe (tmpName Gen.tmpSep Gen.tmpSuffix (defaultName Gen.nameScheme str repr k) pid) = true := by
